@@ -81,11 +81,16 @@ def run(ctx):
 		for seed in seeds:
 			for cwd in cwds:
 				configurations.append((seed, cwd, False, False))
+		# a working directory that holds files with the very names the schemas import (the other network's schema directory):
+		# import resolution must go through --include only
+		other = os.path.join(REPO, 'catbuffer', 'schemas', 'nem' if 'symbol' == network else 'symbol')
+		configurations.insert(1, (seeds[1], other, False, False))
+		configurations.append((seeds[0], other, True, False))
 		configurations.append((seeds[0], cwds[1], True, False))
 		configurations.append((seeds[-1], cwds[0], True, True))
 		configurations.append((seeds[1], cwds[2], False, True))
 		if not ctx.thorough:
-			configurations = configurations[:2] + rng.sample(configurations[2:], 5)
+			configurations = configurations[:3] + rng.sample(configurations[3:], 5)
 		outputs = {}
 		for index, (seed, cwd, relative, stale) in enumerate(configurations):
 			output = os.path.join(scratch, f'out-{network}-{index}')
